@@ -366,10 +366,12 @@ func (gp *GenginePool) UpdatePooledRulesIncremental(ruleStr string) error {
 func (gp *GenginePool) ClearPoolRules() {
 	gp.updateLock.Lock()
 	defer gp.updateLock.Unlock()
-	gp.ruleBuilder = nil
+	//keep the master builder (later incremental updates and removals work on it) and never empty a rule set
+	//in place: running executions may still hold it, so every instance gets a fresh empty one
+	gp.ruleBuilder.Kc = base.NewKnowledgeContext()
 	gp.clear = true
 	for i := 0; i < int(gp.max); i++ {
-		gp.rbSlice[i].Kc.ClearRules()
+		gp.rbSlice[i].Kc = gp.ruleBuilder.Kc
 	}
 }
 
